@@ -408,6 +408,11 @@ var all = []*Codec{
 	},
 	mpeg4audioCodec("mpeg4audio", 13, 3, 3),
 	mpeg4audioCodec("mpeg4audio-6-2", 6, 2, 2),
+	// what an SDP with sizelength=13;indexlength=3 and no indexdeltalength gives: the headers
+	// after the first one are shorter than the first
+	mpeg4audioCodec("mpeg4audio-13-3-0", 13, 3, 0),
+	// ... and longer than the first (legal as well: the lengths are independent parameters)
+	mpeg4audioCodec("mpeg4audio-6-2-4", 6, 2, 4),
 	{
 		Name: "fragmented", Video: true, Fragments: true, FrameMode: true, Stateful: true,
 		MaxFrameSize:  mpeg4video.MaxFrameSize,
